@@ -5,6 +5,7 @@ import (
 	"go/ast"
 	"go/token"
 	"go/types"
+	"golang.org/x/tools/go/ssa"
 	"os"
 	"path/filepath"
 	"reflect"
@@ -185,12 +186,12 @@ func (o fieldOp) String() string {
 }
 
 type tlBindings struct {
-	c     *Ctx
-	pkg   *packages.Package
-	funcs map[string]*ast.FuncDecl // "Recv.Name" or "Name"
-	decls []tlDecl
-	byRes map[string][]tlDecl // result type -> constructors (types section only)
-	byCon map[string]tlDecl   // constructor name -> decl
+	c         *Ctx
+	pkg       *packages.Package
+	funcs     map[string]*ast.FuncDecl // "Recv.Name" or "Name"
+	decls     []tlDecl
+	byRes     map[string][]tlDecl // result type -> constructors (types section only)
+	byCon     map[string]tlDecl   // constructor name -> decl
 	boxedUsed map[string]bool
 }
 
@@ -905,6 +906,29 @@ func (tb *tlBindings) checkDecoderTable() {
 		dd := decs[fn]
 		c.check(dd.id == d.id && dd.typ == camel(d.name)+"Request", R, key, dd.pos, "table key, decoder tag and request type agree with the schema",
 			fmt.Sprintf("table entry %08x -> %s decodes tag %08x into %s; schema says %s#%s -> %sRequest", d.id, fn, dd.id, dd.typ, d.name, d.idText, camel(d.name)))
+	}
+	// the per-request decoder and the dispatcher accept a request that is only its 4-byte id (four of the
+	// schema's functions have no fields): the minimum length they insist on is exactly 4
+	for _, fn := range []string{"decodeRequest", "LiteapiRequestDecoder"} {
+		f := c.mustFn(R, "liteclient", fn)
+		if f == nil {
+			continue
+		}
+		targets := []*ssa.Function{f}
+		targets = append(targets, f.AnonFuncs...)
+		okv, seen := true, 0
+		var got int64 = -1
+		for _, g := range targets {
+			for _, cl := range callsTo(g, "encoding/binary.littleEndian.Uint32") {
+				seen++
+				lo, _, hasLo, _ := constBounds(g, cl.Block(), lenOf(nil))
+				got = lo
+				if !hasLo || lo != 4 {
+					okv = false
+				}
+			}
+		}
+		c.check(okv && seen == 1, R, "liteclient."+fn+" requires exactly 4 bytes before it reads the id", f.Pos(), "len(b) >= 4", fmt.Sprintf("liteclient.%s reads the 4-byte request id behind a length guard whose lower bound is %d, not 4: a request that is only its constructor id (getMasterchainInfo, getTime, getVersion, getRequestRateLimit) is rejected / an unguarded slice", fn, got))
 	}
 	c.check(len(table) == n, R, "decoder table size", tablePos, fmt.Sprintf("%d entries, one per schema function", n), fmt.Sprintf("taggedRequestDecodeFunctions has %d entries, the schema has %d functions", len(table), n))
 }
